@@ -12,7 +12,7 @@ RULE = ('one run = one adversarial connection (garbage / mutated / truncated req
         'one real executor, concurrent and subsequent; each canary is first run alone in a twin world and its '
         'transcripts compared; non-trivial = the adversary did something other than a clean exchange while a '
         'canary was in flight or before a later canary; distinct = distinct event-log digests')
-PROBES = ['adv_stalled_upload', 'front_tls', 'adv_plaintext_on_tls_port', 'adv_upstream_bad_framing', 'adv_upstream_gone_with_output_pending', 'adv_garbage', 'adv_truncated', 'adv_nonutf8', 'adv_bad_upstream', 'adv_plugin_raises',
+PROBES = ['short_idle_timeout', 'adv_stalled_upload', 'front_tls', 'adv_plaintext_on_tls_port', 'adv_upstream_bad_framing', 'adv_upstream_gone_with_output_pending', 'adv_garbage', 'adv_truncated', 'adv_nonutf8', 'adv_bad_upstream', 'adv_plugin_raises',
           'adv_faults', 'adv_reverse', 'adv_web', 'adv_tunnel', 'canary_concurrent', 'canary_subsequent',
           'worker_survived_task_exception', 'blocking_connect_timeout']
 COMPONENTS = {
@@ -48,7 +48,7 @@ CANARY_RESP = b'HTTP/1.1 200 OK\r\nX-Canary: 1\r\nContent-Length: 11\r\n\r\ncana
 
 
 def _world_setup(w: Any, tape: Any, opts: Dict[str, Any], adv_plugin_raises: bool,
-                 front_tls: bool = False) -> Tuple[Any, Any, Dict[str, Any]]:
+                 front_tls: bool = False, idle_timeout: int = 3600) -> Tuple[Any, Any, Dict[str, Any]]:
     """Flags and origins common to the twin and the main world."""
     from ..actors import Origin
     from ..harness import L1, make_flags
@@ -68,7 +68,7 @@ def _world_setup(w: Any, tape: Any, opts: Dict[str, Any], adv_plugin_raises: boo
                               (r'/radv2', [b'http://10.0.0.67/adv2'])])
     if front_tls:
         opts = dict(opts, cert_file=_px['front']['cert'], key_file=_px['front']['key'])
-    flags = make_flags(['--enable-reverse-proxy'], threadless=True, local_executor=1, timeout=3600,
+    flags = make_flags(['--enable-reverse-proxy'], threadless=True, local_executor=1, timeout=idle_timeout,
                        enable_web_server=True, plugins=[canary_route, RaisingRoute, rp], **opts)
 
     def canary_responder(peer: Any, info: Dict[str, Any]) -> List[Any]:
@@ -140,9 +140,12 @@ def run_one(tape: Any, cfg: Dict[str, Any], forbid: FrozenSet[str] = frozenset()
     if front_tls:
         opts.pop('client_recvbuf_size', None)       # below a TLS record decrypted bytes would sit inside OpenSSL
 
+    # a short idle timeout brings the worker's periodic sweep over all connections into play (it runs outside any work's task)
+    idle_timeout = [3600, 3600, 3][tape.draw(3, 'idle-timeout')]
+
     # ---- twin world: canaries alone ----------------------------------------------
     with World(Tape(twin_seed)) as tw:
-        _, th, torigins = _world_setup(tw, tw.tape, opts, False, front_tls)
+        _, th, torigins = _world_setup(tw, tw.tape, opts, False, front_tls, idle_timeout)
         tcan = [_canary(tw, th, k, kinds[k], starts[k], front_tls) for k in range(ncan)]
         tw.settle(2.0, 120.0)
         ref = _transcripts(tcan, torigins)
@@ -154,7 +157,9 @@ def run_one(tape: Any, cfg: Dict[str, Any], forbid: FrozenSet[str] = frozenset()
     # ---- main world ------------------------------------------------------------------
     with World(tape) as w:
         scen.sched_swarm(w, tape)
-        flags, h, origins = _world_setup(w, tape, opts, True, front_tls)
+        flags, h, origins = _world_setup(w, tape, opts, True, front_tls, idle_timeout)
+        if idle_timeout < 3600:
+            w.probe('short_idle_timeout')
         canaries = [_canary(w, h, k, kinds[k], starts[k], front_tls) for k in range(ncan)]
         if front_tls:
             w.probe('front_tls')
@@ -349,7 +354,10 @@ def run_one(tape: Any, cfg: Dict[str, Any], forbid: FrozenSet[str] = frozenset()
                     w.fail('canary_stalled', c.kind, '%s (%s) did not complete next to the adversary (%s/%s/%s); got %r'
                            % (c.name, c.kind, arole, akind, up_mode, got[c.name][0][:80]))
                     break
-                if got[c.name][:2] != ref[c.name][:2]:
+                same = got[c.name][:2] == ref[c.name][:2]
+                if not same and idle_timeout < 3600 and ref[c.name][1] == 'open' and got[c.name][0] == ref[c.name][0]:
+                    same = True         # an idle canary left open in the short twin run was reaped in the longer main run
+                if not same:
                     w.fail('canary_differs', c.kind, '%s (%s): with adversary %r, alone %r'
                            % (c.name, c.kind, got[c.name][:2], ref[c.name][:2]))
                     break
